@@ -189,10 +189,16 @@ class _DictIter(ast.NodeTransformer):
     """ELEM(D.keys()) / ELEM(D) / ELEM0(D.items()) -> KEY(D) ;  ELEM1(D.items()) / D[KEY(D)] / ELEM(D.values()) -> VAL(D)
     (only for iteration markers, i.e. ELEM* calls produced by PROV)."""
 
+    def __init__(self, dicts=()):
+        self.dicts = set(dicts)
+
     def visit_Call(self, node):
         self.generic_visit(node)
         if isinstance(node.func, ast.Name) and node.func.id in ("ELEM", "ELEM0", "ELEM1") and len(node.args) == 1:
             a = node.args[0]
+            if node.func.id == "ELEM" and norm(a) in self.dicts:
+                # iterating a mapping is iterating its keys
+                return ast.Call(func=ast.Name(id="KEY", ctx=ast.Load()), args=[a], keywords=[])
             if isinstance(a, ast.Call) and isinstance(a.func, ast.Attribute) and not a.args:
                 d = a.func.value
                 kind = a.func.attr
@@ -211,9 +217,10 @@ class _DictIter(ast.NodeTransformer):
         return node
 
 
-def canon_dict_iter(text):
+def canon_dict_iter(text, dicts=()):
+    """dicts: texts of expressions known to be mappings (so that ELEM(D) is a key of D)"""
     try:
-        return ast.unparse(_DictIter().visit(ast.parse(text, mode="eval").body))
+        return ast.unparse(_DictIter(dicts).visit(ast.parse(text, mode="eval").body))
     except SyntaxError:
         return text
 
